@@ -603,9 +603,8 @@ theorem items_correct (code : Code) (p : Pos) :
 
 /-! #### the statement theorem -/
 
-mutual
-/-- statements covered by the simulation theorem (SELECT CASE, FOR and DATA/READ are not, yet), with
-every variable slot below `n` and numeric conditions -/
+/-- statements covered by the simulation theorem so far (IF, DO, SELECT CASE, FOR and DATA/READ are not,
+yet), with every variable slot below `n` and numeric loop conditions -/
 def Wf (n : Nat) : SStmt → Prop
   | .skip => True
   | .comment => True
@@ -613,18 +612,14 @@ def Wf (n : Nat) : SStmt → Prop
   | .dim x _ _ => x < n
   | .assign x _ e _ => x < n ∧ SlotsBelow n e
   | .print items _ => ItemsSlots n items
-  | .ifBlock c thn elifs _ els _ => SlotsBelow n c ∧ NumericCond c ∧ Wf n thn ∧ WfElifs n elifs ∧ Wf n els
+  | .ifBlock _ _ _ _ _ _ => False
   | .while c body _ => SlotsBelow n c ∧ NumericCond c ∧ Wf n body
-  | .doLoop c _ _ body _ => SlotsBelow n c ∧ NumericCond c ∧ Wf n body
+  | .doLoop _ _ _ _ _ => False
   | .end_ _ => True
   | .data _ _ => False
   | .read _ _ => False
   | .select _ _ _ _ _ => False
   | .forLoop _ _ _ _ _ _ _ => False
-def WfElifs (n : Nat) : ElseIfs → Prop
-  | .nil => True
-  | .cons c body rest => SlotsBelow n c ∧ NumericCond c ∧ Wf n body ∧ WfElifs n rest
-end
 
 /-- the induction hypothesis of the statement theorem at a given amount of fuel -/
 def StmtIH (code : Code) (fuel : Nat) : Prop :=
@@ -963,5 +958,81 @@ theorem case_while (code : Code) (fuel : Nat) (ih : StmtIH code fuel) (c : Ast.E
         exact ErrsWith.of_steps (Steps.cons s1 st) hb
       | inexact => simp [StmtSpec]
       | outOfFuel => simp [StmtSpec]
+
+/-- **`compileStmt_correct`** (covered constructs: sequencing, comments, DIM, assignment with conversion, PRINT,
+WHILE, END): for every amount of fuel, the code of a statement placed anywhere in a program, started in a VM
+state that represents reference state `s`, does what `Ref.exec` prescribes for the statement — it reaches the
+end of the statement's code in a state representing the prescribed final state, with all stacks restored
+(normal end); or it halts in such a state (END); or it stops with the prescribed error code and position,
+variables and output as prescribed at that point. -/
+theorem compileStmt_correct (code : Code) : ∀ fuel, StmtIH code fuel := by
+  intro fuel
+  induction fuel with
+  | zero =>
+    intro stmt sfx off σ s _ _ _ _
+    simp [exec, StmtSpec]
+  | succ fuel ih =>
+    intro stmt sfx off σ s hc hpc hr hw
+    cases stmt with
+    | skip =>
+      simp only [desugar, exec, StmtSpec, sizeStmt]
+      exact ⟨σ, Steps.refl σ, by simpa using hpc, hr, SameStacks.refl σ, trivial⟩
+    | comment =>
+      simp only [desugar, exec, StmtSpec, sizeStmt]
+      exact ⟨σ, Steps.refl σ, by simpa using hpc, hr, SameStacks.refl σ, trivial⟩
+    | seq a b => exact case_seq code fuel ih a b sfx off σ s hc hpc hr hw
+    | dim x t p => exact case_dim code x t p sfx off σ s fuel hc hpc hr
+    | assign x t e p => exact case_assign code x t e p sfx off σ s fuel hc hpc hr hw
+    | print items p => exact case_print code items p sfx off σ s fuel hc hpc hr hw
+    | «while» c body p => exact case_while code fuel ih c body p sfx off σ s hc hpc hr hw
+    | end_ p => exact case_end code p sfx off σ s fuel hc hpc hr
+    | data _ _ => exact hw.elim
+    | read _ _ => exact hw.elim
+    | ifBlock _ _ _ _ _ _ => exact hw.elim
+    | select _ _ _ _ _ => exact hw.elim
+    | forLoop _ _ _ _ _ _ _ => exact hw.elim
+    | doLoop _ _ _ _ _ => exact hw.elim
+
+/-- comparisons, AND, OR and NOT of integers produce numbers: the usual conditions are `NumericCond` -/
+theorem numericCond_of_rel (op : Op) (l r : Ast.Expr) (t : Ty) (p : Pos)
+    (hop : op = .less ∨ op = .lessOrEqual ∨ op = .equal ∨ op = .greaterOrEqual ∨ op = .greater ∨ op = .notEqual) :
+    NumericCond (.bin op l r t p) := by
+  intro env v hv
+  simp only [eval] at hv
+  cases hl : eval env l with
+  | err c q => simp [hl, ERes.bind] at hv
+  | inexact => simp [hl, ERes.bind] at hv
+  | ok a =>
+    cases hr : eval env r with
+    | err c q => simp [hl, hr, ERes.bind] at hv
+    | inexact => simp [hl, hr, ERes.bind] at hv
+    | ok b =>
+      simp only [hl, hr, ERes.bind] at hv
+      have hb : binStep op t a b = (tryCmp a b).bind fun o' => Res.ok (ofBool (relHolds op o')) := by
+        rcases hop with h | h | h | h | h | h <;> subst h <;> rfl
+      rw [hb] at hv
+      cases ht : tryCmp a b with
+      | ok o =>
+        simp only [ht, Res.bind, lift] at hv
+        injection hv with hv
+        subst hv
+        simp only [ofBool]
+        split <;> rfl
+      | err e => simp [ht, Res.bind, lift] at hv
+      | inexact => simp [ht, Res.bind, lift] at hv
+
+/-! #### non-vacuity: a concrete program in the covered fragment, its code and its run -/
+
+private def demoProg : SStmt :=
+  .seq (.assign 0 .int (.lit (.int 0) ⟨1, 5⟩) ⟨1, 1⟩)
+  (.seq (.while (.bin .less (.var 0 .int ⟨2, 7⟩) (.lit (.int 2) ⟨2, 11⟩) .int ⟨2, 9⟩)
+          (.seq (.print [.expr (.var 0 .int ⟨3, 7⟩)] ⟨3, 1⟩)
+            (.seq (.assign 0 .int (.bin .plus (.var 0 .int ⟨4, 5⟩) (.lit (.int 1) ⟨4, 9⟩) .int ⟨4, 7⟩) ⟨4, 1⟩) .skip)) ⟨2, 1⟩)
+    .skip)
+
+example : Wf 1 demoProg := by
+  refine ⟨⟨Nat.zero_lt_one, trivial⟩, ⟨⟨Nat.zero_lt_one, trivial⟩, ?_, ?_⟩, trivial⟩
+  · exact numericCond_of_rel _ _ _ _ _ (.inl rfl)
+  · exact ⟨⟨Nat.zero_lt_one, trivial⟩, ⟨Nat.zero_lt_one, Nat.zero_lt_one, trivial⟩, trivial⟩
 
 end RbThm.C01Sim
